@@ -256,13 +256,25 @@ def verbatimCopies : List String :=
   ["dir.as_ref().to_path_buf()", "dir.as_ref().to_owned()", "PathBuf::from(dir.as_ref())",
    "dir.as_ref().into()"]
 
-/-- `path_loader` in the source captures the directory it is given verbatim, joins with
-    `safe_join(&dir, name)` and touches the file system through one `fs::read_to_string` only —
-    the shape `pathLoader`/`Loader.load` model -/
+/-- `path_loader` in the source has the shape `pathLoader`/`Loader.load` model:
+    * it captures the directory it is given verbatim;
+    * it joins with `safe_join(&dir, name)` and binds the result to an immutable variable;
+    * exactly that variable (or a reference to it) is what the single `fs::read_to_string` gets,
+      and the variable is mentioned nowhere else (no reassignment, shadowing, `.push(`, `.join(`);
+    * no other call whose name belongs to a file-system vocabulary occurs, however it is spelled
+      (`exists`, `is_file`, `metadata`, `canonicalize`, `File::open`, …);
+    * the base is mentioned only in its binding and in the `safe_join` call, the name only as the
+      closure parameter and in the `safe_join` call (so no second path is built from either). -/
 theorem loader_model_matches_source :
     MJ.Gen.c17PathLoaderBase ∈ verbatimCopies ∧
     MJ.Gen.c17PathLoaderFsCalls = ["read_to_string"] ∧
-    MJ.Gen.c17PathLoaderJoins = ["&dir,name"] := by decide
+    MJ.Gen.c17PathLoaderJoins = ["&dir,name"] ∧
+    MJ.Gen.c17PathLoaderFsVocab = ["read_to_string"] ∧
+    (MJ.Gen.c17PathLoaderJoinBinding.toList.all fun c => c.isAlphanum || c == '_') = true ∧
+    (MJ.Gen.c17PathLoaderReadArgs = [MJ.Gen.c17PathLoaderJoinBinding] ∨
+      MJ.Gen.c17PathLoaderReadArgs = ["&" ++ MJ.Gen.c17PathLoaderJoinBinding]) ∧
+    MJ.Gen.c17PathLoaderPathUses = 2 ∧ MJ.Gen.c17PathLoaderDirUses = 3 ∧
+    MJ.Gen.c17PathLoaderNameUses = 2 := by decide
 
 /-- the rules the model's `badSeg`/`safeJoin` are built from, as found in the source now -/
 theorem safe_join_rules_from_source :
